@@ -29,6 +29,7 @@ def boot(scratch):
 def plan(tier, seed):
     jobs = [dict(kind='lexeme', cls=c) for c in sorted(RISKY)]
     jobs.append(dict(kind='illegal'))
+    jobs += [dict(kind='corrupt', lexeme=n) for n in CORRUPT_CLASSES]
     for name in sorted(C12.library()):
         jobs.append(dict(kind='matrix', target=name))
     jobs += [dict(kind='csv', rows=r) for r in (0, 1)]
@@ -95,6 +96,50 @@ def lexeme_harness(ctx, cfg):
     full = {'kind': 'lexeme', 'cls': cls, 'witnesses': witnesses}
     return {'outcome': '%d witnesses' % len(witnesses), 'obligations': obs, 'groups': groups, 'replay': rec, 'validated': True,
             'concretise': lambda m, label: full}
+
+
+CORRUPT_CLASSES = ['identifier', 'integer', 'decimal', 'integer-exponent', 'double-quoted', 'single-quoted', 'unquoted-path', 'colon', 'comma', 'equal', 'lbrack', 'rbrack', 'lparen', 'rparen']
+TEMPLATES = ['A = Cmd(P = "x" {T})', 'A = Cmd(P = [1 {T}])', 'A = {T}(P = 1)', '{T} = Cmd(P = 1)', 'A = Cmd(P = 1) {T}', 'A = Cmd({T} = 1)', 'A = Cmd(P {T} 1)',
+             'A = Cmd(P = [k: {T} {T}])', 'A {T}', '{T}', 'A = Cmd(P = 1,, {T})', 'A = Cmd(P = 7 {T})']
+
+
+def corrupt_harness(ctx, cfg):
+    """a token of each lexeme class (z3 witnesses of the class that the live lexer really reads as that token) is put
+    where the grammar does not expect it: the real parser must answer with a tree or a SyntaxError, never anything else"""
+    from . import C10
+    live = lexenc.Live()
+    pp = sys.modules['mpilot.parser.parser']
+    pat, follow, rule = C10.LEXEMES[cfg['lexeme']]
+    w, rest = z3.String('w'), z3.String('rest')
+    base = [z3.InRe(w, lexenc.rx(pat)), z3.Length(w) <= 6, rest == z3.StringVal(' '), live.first_match(rule, w, rest), z3.Not(live.longer(rule, w, rest))]
+    ws, block = [], []
+    for _ in range(3):
+        st, m = lexenc.solve(base + block, timeout=20000)
+        if st != 'sat':
+            break
+        val = symx.model_value(m, w)
+        ws.append(val)
+        block.append(w != z3.StringVal(val))
+    obs, groups, bad = [], {}, []
+    lab = 'the lexeme class %s has witnesses' % cfg['lexeme']
+    obs.append((lab, z3.BoolVal(bool(ws))))
+    groups[lab] = 'vacuous'
+    for wv in ws:
+        for tmpl in TEMPLATES:
+            text = tmpl.replace('{T}', wv)
+            try:
+                pp.Parser().parse(text)
+                oc = 'parsed'
+            except SyntaxError:
+                oc = 'SyntaxError'
+            except Exception as e:      # noqa: B902
+                oc = 'escaped:' + type(e).__name__
+                bad.append((text, type(e).__name__))
+            lab = 'misplaced %s token: %r ends in a parse tree or a SyntaxError (%s)' % (cfg['lexeme'], text, oc)
+            obs.append((lab, z3.BoolVal(not oc.startswith('escaped'))))
+            groups[lab] = 'parser-escape at ' + cfg['lexeme']
+    rec = {'kind': 'corrupt', 'lexeme': cfg['lexeme'], 'witnesses': ws, 'failures': bad[:5]}
+    return {'outcome': '%d witnesses' % len(ws), 'obligations': obs, 'groups': groups, 'replay': rec, 'validated': True, 'concretise': lambda m, l: rec}
 
 
 def illegal_harness(ctx, cfg):
@@ -309,7 +354,7 @@ def errors_harness(ctx, cfg):
 
 
 def harness(ctx, cfg):
-    return {'lexeme': lexeme_harness, 'illegal': illegal_harness, 'matrix': matrix_harness, 'csv': csv_harness, 'errors': errors_harness}[cfg['kind']](ctx, cfg)
+    return {'lexeme': lexeme_harness, 'corrupt': corrupt_harness, 'illegal': illegal_harness, 'matrix': matrix_harness, 'csv': csv_harness, 'errors': errors_harness}[cfg['kind']](ctx, cfg)
 
 
 def confirm(rec, label):
@@ -326,6 +371,8 @@ def confirm(rec, label):
             except Exception as e:
                 bad.append((text[:50], type(e).__name__))
         return bool(bad), 'real parser on the solver-found lexemes: %s' % (bad[:3],)
+    if k == 'corrupt':
+        return bool(rec['failures']), 'real parser: %s' % (rec['failures'][:3],)
     if k == 'csv':
         oc, detail = run_csv(rec)
         return oc.startswith('escaped'), 'real run on CSV %r: %s %s' % (rec['lines'], oc, detail)
